@@ -77,12 +77,41 @@ theorem header_rereads_within_scan (par : Parser) (patch : Patch) (strip : Int) 
   omega
 
 /-- sharper form: the header leaves the stream exactly `linesTillFirstHunk - 1` lines after the start of the section; and
-    either that is at least one line, or the flags are clear and the body parser is called -/
+    either that is at least one line, or the flags are clear and the body parser is called.
+    STRENGTHENED with the rule that the `diff --git` line always belongs to the header (`ltfh := lines + 1` on the first
+    `diff --git` line) and the rule "no hunk found ⇒ format unknown": a pass that consumes no line is not a git section, and
+    unless it found nothing at all (format `unknown`, the section loop stops) its first hunk starts on the very first line
+    of the section.  The statement before the change was
+
+      par'.s.rest.length + (info.linesTillFirstHunk - 1) = par.s.rest.length ∧
+      (par'.s.rest.length < par.s.rest.length ∨ (par'.s.eof = false ∧ par'.s.bad = false ∧ body = true))        -/
 theorem header_rereads_exact (par : Parser) (patch : Patch) (strip : Int) (body : Bool) (p : Patch) (info : HeaderInfo) (par' : Parser)
     (h : parseHeader par patch strip = .ok (body, p, info, par')) :
     par'.s.rest.length + (info.linesTillFirstHunk - 1) = par.s.rest.length ∧
-    (par'.s.rest.length < par.s.rest.length ∨ (par'.s.eof = false ∧ par'.s.bad = false ∧ body = true)) :=
-  Cost.parseHeader_le par patch strip body p info par' h
+    (par'.s.rest.length < par.s.rest.length ∨
+      (par'.s.eof = false ∧ par'.s.bad = false ∧ body = true ∧ p.format ≠ .git ∧
+        (p.format = .unknown ∨ info.linesTillFirstHunk = 1))) :=
+  Cost.parseHeader_progress par patch strip body p info par' h
+
+/-- NEW: **a git header is consumed** (the formal counterpart of `lines_till_first_hunk = lines + 1` on the `diff --git` line):
+    whenever the header scan returns a git patch — i.e. it saw a `diff --git` line — the first hunk, or the next section, is
+    at least on the second line, so the re-read skips at least the `diff --git` line and the parser is left strictly after
+    the start of the section, whether or not a hunk, an extended header or a second `diff --git` line follows.
+    (Before the change a `diff --git` line followed by nothing recognisable left `linesTillFirstHunk = 0`.) -/
+theorem git_header_consumed (par : Parser) (patch : Patch) (strip : Int) (body : Bool) (p : Patch) (info : HeaderInfo) (par' : Parser)
+    (h : parseHeader par patch strip = .ok (body, p, info, par')) (hg : p.format = .git) :
+    info.format = .git ∧ 2 ≤ info.linesTillFirstHunk ∧ par'.s.rest.length < par.s.rest.length :=
+  Cost.parseHeader_git par patch strip body p info par' h hg
+
+/-- NEW: the header scan returns one of five formats (never `ed`), the same in the patch and in the header info; a format
+    other than `unknown` comes with a first-hunk line (`linesTillFirstHunk ≥ 1`) — a format given by option does not
+    survive a scan that finds no hunk — and `git` with `linesTillFirstHunk ≥ 2` -/
+theorem header_format_found (par : Parser) (patch : Patch) (strip : Int) (body : Bool) (p : Patch) (info : HeaderInfo) (par' : Parser)
+    (h : parseHeader par patch strip = .ok (body, p, info, par')) :
+    info.format = p.format ∧
+    (p.format = .git ∨ p.format = .unknown ∨ p.format = .unified ∨ p.format = .normal ∨ p.format = .context) ∧
+    (p.format ≠ .unknown → 1 ≤ info.linesTillFirstHunk) ∧ (p.format = .git → 2 ≤ info.linesTillFirstHunk) :=
+  Cost.parseHeader_found par patch strip body p info par' h
 
 /-- a successful body parse never leaves more unread lines than it found (its rewinds only un-read a look-ahead line), and
     from clear flags it consumes at least one line or sets the eof flag (so that the section loop stops) -/
@@ -124,6 +153,8 @@ end PatchModel.C08
 #print axioms PatchModel.C08.getLine_consumes
 #print axioms PatchModel.C08.header_rereads_within_scan
 #print axioms PatchModel.C08.header_rereads_exact
+#print axioms PatchModel.C08.git_header_consumed
+#print axioms PatchModel.C08.header_format_found
 #print axioms PatchModel.C08.body_makes_progress
 #print axioms PatchModel.C08.skipLines_consumes
 #print axioms PatchModel.C08.parseAll_terminates
